@@ -14,7 +14,7 @@ import (
 // sfuScenario: a locking read inside a global transaction, autocommit or inside an explicit local transaction, with
 // or without a foreign global transaction holding one of the rows at the coordinator.
 func sfuScenario(r *hutil.Rng, i int, stream string) (atrun.Scenario, Meta) {
-	variant := []int{0, 3, 2}[r.Intn(3)]
+	variant := []int{0, 3, 2, 6, 7}[r.Intn(5)]
 	t := mkTable(r, variant, false)
 	for t.nkeys < 3 {
 		t = mkTable(r, variant, false)
@@ -26,6 +26,9 @@ func sfuScenario(r *hutil.Rng, i int, stream string) (atrun.Scenario, Meta) {
 	if conflict {
 		// a foreign global transaction owns row 1 or 2 at the coordinator
 		pk := strconv.Itoa(1 + r.Intn(2))
+		if variant >= 6 {
+			pk = "1.25e+06"
+		}
 		if variant == 2 {
 			pk = "1_" + []string{"x", "y"}[r.Intn(2)]
 		}
@@ -52,6 +55,20 @@ func sfuScenario(r *hutil.Rng, i int, stream string) (atrun.Scenario, Meta) {
 		b = &sqlb{}
 		b.w(keycol + " = ")
 		b.intVal(r, 999)
+	}
+	if t.cols[t.pk[0]].Kind == "num" {
+		b = &sqlb{}
+		switch r.Intn(3) {
+		case 0:
+			b.w(keycol + " >= ")
+			b.intVal(r, 0)
+		case 1:
+			b.w(keycol + " IN (?, ?)")
+			b.args = append(b.args, atrun.I(1250000), atrun.Arg{T: "float", V: "12.5"})
+		default:
+			b.w(keycol + " > ")
+			b.intVal(r, 1000)
+		}
 	}
 	where := b.sb.String()
 	// ORDER BY a non-key column (+ key as tie-break) with LIMIT [OFFSET]: the rows handed out are a strict, order
